@@ -62,21 +62,24 @@ theorem okT_iff (s : SchemaD) (fx : Fixes) (n : Node) (t : TI) : okT s fx (n, t)
       · by_cases hi : isInputObject s it.base = true
         · simp only [okT, vocBad, vocF, valueNodeOk, TI.iview, hit, Option.map_some, hi, Bool.not_true,
             Bool.false_eq_true, false_implies, ↓reduceIte, true_and, forall_const, Option.some.injEq, forall_eq',
-            List.length_eq_zero_iff, List.filter_eq_nil_iff]
+            List.length_eq_zero_iff, List.filter_eq_nil_iff, false_and, or_false]
           constructor
-          · intro h fd hfd hreq
+          · intro h
+            refine Or.inl fun fd hfd hreq => ?_
             have := h fd hfd
             simpa [hreq] using this
           · intro h fd hfd
-            by_cases hreq : ArgD.required fd = true
-            · simp [hreq, h fd hfd hreq]
-            · simp [hreq]
+            rcases h with h | h
+            · by_cases hreq : ArgD.required fd = true
+              · simp [hreq, h fd hfd hreq]
+              · simp [hreq]
+            · exact absurd h.1 (by simp)
         · have hb : vocBad s (.value (.obj fs)) t = true := by simp [vocBad, hit, hi]
-          have hs : vocS s (.value (.obj fs)) t ≠ 0 := fun h0 => by
-            have := dead_of_quiet s fs t hb h0; rw [hit] at this; cases this
+          have hz := scalarErrs_zero_iff s t (.obj fs)
+          simp only [hit, Option.some.injEq, forall_eq'] at hz
           simp only [okT, hb, forall_const, Bool.true_eq_false, false_implies, and_true, valueNodeOk, TI.iview, hit,
-            Option.some.injEq, forall_eq', hi, Bool.false_eq_true, false_and]
-          exact ⟨fun h => absurd h hs, fun h => absurd h (by simp)⟩
+            Option.some.injEq, forall_eq', hi, Bool.false_eq_true, false_and, false_or, true_and, vocS]
+          exact hz
   | objField name =>
     simp only [okT, vocBad, vocF, valueNodeOk, outerObject_iview, Bool.false_eq_true, false_implies, true_and,
       forall_const]
